@@ -104,6 +104,16 @@ def build_altdec(explicit_u):
         from nuspacesim.simulation.eas_optical.eas import EAS
 
         eas = harness.partial(EAS)
+        # the configuration the object was built with: an arbitrary detector (the decay point does not depend on it)
+        if isinstance(v["beta"], A):
+            import types as _types
+
+            ip = _types.SimpleNamespace(altitude=S(sp.Symbol("detector_altitude", positive=True), "py"), latitude=S(sp.Symbol("detector_latitude", real=True), "py"), longitude=S(sp.Symbol("detector_longitude", real=True), "py"))
+            eas.config = _types.SimpleNamespace(detector=_types.SimpleNamespace(initial_position=ip))
+        else:
+            from nuspacesim.config import NssConfig
+
+            eas.config = NssConfig()
         return fn, [eas, v["beta"], v["bt"], v["g"], v["u"]], {}
 
     return b
@@ -247,6 +257,32 @@ def native_history(ck):
         if bad:
             fails.append({"obligation": "bounded.history", "clause": bad[0], "input": {"etau_frac set before this call": frac, "calls on this object so far": n // m, "table_version": "3"}, "observed": bad[1]})
             break
+    # the decay point of the real EAS.altDec for detectors low in the atmosphere and at orbit: the altitude is the one at distance lenDec along the
+    # line of emergence angle beta (law of cosines), also where the decay happens far above the detector
+    from nuspacesim.config import NssConfig
+    from nuspacesim.simulation.eas_optical.eas import EAS
+
+    for det_alt in (3.0, 33.0, 525.0):
+        dcfg = NssConfig()
+        dcfg.detector.initial_position.altitude = det_alt
+        e_ = EAS(dcfg)
+        bb = np.radians(np.array([1.0, 5.0, 20.0, 35.0, 10.0, 2.0]))
+        gam = np.array([1e4, 1e9, 1e7, 3e9, 1e8, 1e10])  # decay lengths from centimetres to thousands of km
+        tbeta = np.sqrt(1.0 - 1.0 / gam**2)
+        uu = np.array([0.5, 0.3, 0.9, 0.05, 0.7, 1e-3])
+        n += len(bb)
+        try:
+            with np.errstate(all="ignore"):
+                alt_, len_ = e_.altDec(bb.copy(), tbeta.copy(), gam.copy(), uu.copy())
+            alt_, len_ = np.asarray(alt_, float), np.asarray(len_, float)
+            want_len = -gam * 2.903e-13 * np.log(uu) * tbeta * 299792.458
+            want_alt = np.sqrt(R_KM**2 + len_**2 + 2.0 * R_KM * len_ * np.sin(bb)) - R_KM
+            if not (np.allclose(len_, want_len, rtol=1e-3) and np.allclose(alt_, want_alt, rtol=1e-9, atol=1e-9)):
+                j = int(np.argmax(np.abs(alt_ - want_alt)))
+                fails.append({"obligation": "bounded.history", "clause": "the decay altitude is the altitude at distance lenDec along the emergence line (law of cosines), wherever the detector is",
+                              "input": {"detector altitude": det_alt, "beta_deg": float(np.degrees(bb[j])), "lenDec": float(len_[j])}, "observed": {"altDec": float(alt_[j]), "law of cosines": float(want_alt[j])}})
+        except Exception as ex:
+            fails.append({"obligation": "bounded.history", "clause": "EAS.altDec evaluates", "input": {"detector altitude": det_alt}, "observed": "raised %r" % ex})
     # the diagnostic plots attached to the stage are observers: requesting them (each one, and all together) changes neither the returned
     # columns nor what is stored
     try:
